@@ -215,8 +215,8 @@ func c11Shared(c *Ctx) {
 		return
 	}
 	got := map[string]string{}
-	for _, s := range FieldStoresOf(w, named) {
-		got[s.Field] = Desc(s.Instr.Val)
+	for f, bf := range BuiltFields(w, named) {
+		got[f] = bf.Desc
 	}
 	ok := got["counts"] == "s.counts" && got["tick"] == "s.tick" && got["first"] == "s.first" && got["thereafter"] == "s.thereafter" && got["hook"] == "s.hook" && got["Core"] == "With(s.Core, fields)"
 	c.Check(ok, "R11.3", w.String(), "shares-budget", w.Pos(), "a derived sampler points at the SAME counters and keeps tick/first/thereafter/hook (%v)", got)
